@@ -58,7 +58,7 @@ func testC03Cases(t *testing.T) {
 		sizes = append(sizes, 1000, 2500, 5000)
 		backends = append(backends, run.BadgerDisk)
 	}
-	check(t, "C03", cases(500, 6000), 0, func(rt *rapid.T) {
+	check(t, "C03", cases(900, 15000), 0, func(rt *rapid.T) {
 		backend := rapid.SampledFrom(backends).Draw(rt, "backend")
 		s, err := c03Session(backend)
 		if err != nil {
@@ -88,6 +88,9 @@ func testC03Cases(t *testing.T) {
 		}
 		if rapid.IntRange(0, 2).Draw(rt, "sparse") == 0 {
 			gspec.Sparse = rapid.SampledFrom([]int{2, 3, 7}).Draw(rt, "sparse-every") // some documents lack x and y
+		}
+		if rapid.IntRange(0, 2).Draw(rt, "hetero") == 0 {
+			gspec.Hetero = rapid.SampledFrom([]int{2, 3, 5}).Draw(rt, "hetero-every") // some documents hold a scalar in n
 		}
 		ixs := []string{}
 		for _, f := range []string{"x", "u", "y", "pad", "n", "n.a"} {
@@ -127,8 +130,12 @@ func testC03Cases(t *testing.T) {
 		// the query
 		q := &cs.Query{Coll: "A"}
 		lit := func(v int) *cs.Operand { o := cs.Lit(int64(v)); return &o }
-		switch rapid.IntRange(0, 6).Draw(rt, "critkind") {
+		switch rapid.IntRange(0, 8).Draw(rt, "critkind") {
 		case 0:
+		case 7:
+			q.Crit = &cs.Crit{Op: "lt", Field: "n.a", Arg: lit(rapid.IntRange(0, 5).Draw(rt, "k"))}
+		case 8:
+			q.Crit = &cs.Crit{Op: "or", Sub: []*cs.Crit{{Op: "notexists", Field: "n.a"}, {Op: "eq", Field: "n.a", Arg: lit(rapid.IntRange(0, 4).Draw(rt, "k"))}}}
 		case 1:
 			q.Crit = &cs.Crit{Op: "gte", Field: "x", Arg: lit(rapid.IntRange(0, mod).Draw(rt, "k"))}
 		case 2:
@@ -160,6 +167,14 @@ func testC03Cases(t *testing.T) {
 				default:
 					q.Skip, q.Limit = &sk, &li
 				}
+			}
+		}
+		if rapid.IntRange(0, 11).Draw(rt, "limit-zero") == 0 {
+			// Limit(0) selects nothing, with or without sort, skip and criteria
+			zero := 0
+			q.Limit = &zero
+			if rapid.Bool().Draw(rt, "limit-zero-plain") {
+				q.Skip = nil
 			}
 		}
 		if _, ok := model.Select(q, s.M.Colls["A"].Docs); !ok {
